@@ -1,8 +1,12 @@
 """check.py configuration of C19."""
 
 CFG = {
-    "claim": "Proof over pinned tables (73 formats, 162 DXGI codes, FourCC and mask tables, the encoder table with the "
-             "source's flag bit values incl. DITHER_ALPHA = 0x16): for every header from which a format is detected "
+    "claim": "Proof over the format tables (header / detection rows - DXGI codes with pixel info and supported format, "
+             "accepted codes, special cases, FourCC and mask tables, Format -> DXGI / FourCC, the explicit arms of "
+             "From<Format> for PixelInfo - are TRANSLATED from /repo's working tree into SrcTables.lean by "
+             "tools/extract_tables.py on every run, so the decide-theorems are re-checked for the rows the code has "
+             "now; pinned: the 73-variant Format enumeration, per format the layout of the format definition and the "
+             "native colour, and the encoder table with the source's flag bit values incl. DITHER_ALPHA = 0x16): for every header from which a format is detected "
              "PixelInfo::from_header equals the format's pixel info (all valid DXGI codes x 5 alpha modes, every FourCC "
              "and mask value through the default arms); bits per pixel, block size, native colour, encodability and size "
              "multiple are mutually consistent; the overlapping flag bits never confuse an exactness or dithering test; "
@@ -11,8 +15,9 @@ CFG = {
              "and the codecs are tied to the library exhaustively (every u32 0..255 as DXGI code, all table rows and "
              "their one-bit perturbations) and by running decode/encode for all 73 formats over sizes 1..32 and all "
              "four dithering modes.",
-    "note": "Trusted: Lean kernel + propext/Classical.choice/Quot.sound; the pinned tables FormatTables.lean and the "
-            "dithering dataflow model Dither.lean; the correspondence check (harness, driver, diff) and its generators. "
+    "note": "Trusted: Lean kernel + propext/Classical.choice/Quot.sound; the tables FormatTables.lean (translated rows: the translator "
+            "tools/extract_tables.py is validated by this run's row-by-row comparison; pinned: Format enumeration, format "
+            "layouts / colours, encoder lists) and the dithering dataflow model Dither.lean; the correspondence check (harness, driver, diff) and its generators. "
             "The numeric quantisers and block encoders are abstract parameters of the dithering model.",
     "profiles": ["release"],
     "level": "proof",
